@@ -1,4 +1,5 @@
 import IstioModel.C11.Theorems
+import IstioModel.C11.SdsLemmas
 
 /-!
 C11 - SDS secret release (part 2 of the property).
@@ -12,244 +13,9 @@ namespace IstioModel.C11
 
 /-! ### Resource-name parsing -/
 
-/-- Shape of every successful `ParseResourceName`: the scheme fixes the type, the namespace is the first
-    path segment when there is more than one segment and the proxy namespace only in the implicit
-    `kubernetes://<name>` form, the name is the second (or only) segment - later segments are ignored. -/
-theorem parse_some {rn vns pc cc : Str} {sr : SR} (h : parseResourceName rn vns pc cc = some sr) :
-    sr.resourceName = rn ∧ '/' ∉ sr.name ∧
-    ((sr.rtype = .kubernetes ∧ sr.cluster = pc ∧ ∃ res, rn = kubernetesURI ++ res ∧
-        ((split '/' res = [sr.name] ∧ sr.ns = vns) ∨ ∃ more, split '/' res = sr.ns :: sr.name :: more)) ∨
-     (sr.rtype = .configmap ∧ sr.cluster = cc ∧ sr.ns ≠ [] ∧ sr.name ≠ [] ∧
-        ∃ res more, rn = configmapURI ++ res ∧ split '/' res = sr.ns :: sr.name :: more) ∨
-     (sr.rtype = .gateway ∧ sr.cluster = cc ∧ sr.ns ≠ [] ∧ sr.name ≠ [] ∧
-        ∃ res more, rn = gatewayURI ++ res ∧ split '/' res = sr.ns :: sr.name :: more) ∨
-     (sr.rtype = .invalid ∧ sr.cluster = cc ∧ sr.name = [] ∧ sr.ns = [] ∧ ∃ res, rn = invalidURI ++ res)) := by
-  have nsName : ∀ (t : RType) (res cl : Str), parseNsName t rn res cl = some sr →
-      sr.resourceName = rn ∧ '/' ∉ sr.name ∧ sr.rtype = t ∧ sr.cluster = cl ∧ sr.ns ≠ [] ∧ sr.name ≠ [] ∧
-        ∃ more, split '/' res = sr.ns :: sr.name :: more := by
-    intro t res cl hp
-    unfold parseNsName at hp
-    have hn := split_no_sep '/' res
-    split at hp
-    · rename_i a b more heq
-      split at hp
-      · cases hp
-      · split at hp
-        · cases hp
-        · cases hp
-          rename_i ha hb
-          exact ⟨rfl, hn b (by simp [heq]), rfl, rfl, ha, hb, more, heq⟩
-    · cases hp
-  unfold parseResourceName at h
-  cases hk : cutPrefix rn kubernetesURI with
-  | some res =>
-    rw [hk] at h
-    simp only at h
-    have hrn := cutPrefix_eq_some.mp hk
-    have hn := split_no_sep '/' res
-    split at h
-    · rename_i a b more heq
-      cases h
-      exact ⟨rfl, hn b (by simp [heq]), Or.inl ⟨rfl, rfl, res, hrn, Or.inr ⟨more, heq⟩⟩⟩
-    · rename_i a heq
-      cases h
-      exact ⟨rfl, hn a (by simp [heq]), Or.inl ⟨rfl, rfl, res, hrn, Or.inl ⟨heq, rfl⟩⟩⟩
-    · rename_i heq
-      exact absurd heq (split_ne_nil _ _)
-  | none =>
-    rw [hk] at h
-    simp only at h
-    cases hc : cutPrefix rn configmapURI with
-    | some res =>
-      rw [hc] at h
-      simp only at h
-      obtain ⟨h1, h2, h3, h4, h5, h6, more, h7⟩ := nsName _ _ _ h
-      exact ⟨h1, h2, Or.inr (Or.inl ⟨h3, h4, h5, h6, res, more, cutPrefix_eq_some.mp hc, h7⟩)⟩
-    | none =>
-      rw [hc] at h
-      simp only at h
-      cases hg : cutPrefix rn gatewayURI with
-      | some res =>
-        rw [hg] at h
-        simp only at h
-        obtain ⟨h1, h2, h3, h4, h5, h6, more, h7⟩ := nsName _ _ _ h
-        exact ⟨h1, h2, Or.inr (Or.inr (Or.inl ⟨h3, h4, h5, h6, res, more, cutPrefix_eq_some.mp hg, h7⟩))⟩
-      | none =>
-        rw [hg] at h
-        simp only at h
-        split at h
-        · rename_i hi
-          cases h
-          unfold hasPrefix at hi
-          cases hi2 : cutPrefix rn invalidURI with
-          | none => simp [hi2] at hi
-          | some res =>
-            exact ⟨rfl, by simp, Or.inr (Or.inr (Or.inr ⟨rfl, rfl, rfl, rfl, res, cutPrefix_eq_some.mp hi2⟩))⟩
-        · cases h
-
-/-- The explicit namespace of a successfully parsed name contains no `/`. -/
-theorem parse_ns_no_slash {rn vns pc cc : Str} {sr : SR} (h : parseResourceName rn vns pc cc = some sr)
-    (hv : '/' ∉ vns) : '/' ∉ sr.ns := by
-  obtain ⟨_, _, hk | hc | hg | hi⟩ := parse_some h
-  · obtain ⟨_, _, res, _, h1 | ⟨more, h2⟩⟩ := hk
-    · rw [h1.2]; exact hv
-    · exact split_no_sep '/' res sr.ns (by simp [h2])
-  · obtain ⟨_, _, _, _, res, more, _, h2⟩ := hc
-    exact split_no_sep '/' res sr.ns (by simp [h2])
-  · obtain ⟨_, _, _, _, res, more, _, h2⟩ := hg
-    exact split_no_sep '/' res sr.ns (by simp [h2])
-  · rw [hi.2.2.2.1]; simp
-
-/-- **parse_namespace_binding.** A `kubernetes://` name resolves to the verified namespace `vns` only if it
-    names no namespace at all (implicit form, no `/` after the scheme) or literally names `vns` as its first
-    segment: a name that syntactically names another namespace never yields the verified one. -/
-theorem parse_namespace_binding {rn vns pc cc : Str} {sr : SR} (h : parseResourceName rn vns pc cc = some sr)
-    (ht : sr.rtype = .kubernetes) (hns : sr.ns = vns) :
-    (∃ n, rn = kubernetesURI ++ n ∧ '/' ∉ n ∧ sr.name = n) ∨ (∃ rest, rn = kubernetesURI ++ vns ++ '/' :: rest) := by
-  obtain ⟨_, _, hk | hc | hg | hi⟩ := parse_some h
-  · obtain ⟨_, _, res, hrn, h1 | ⟨more, h2⟩⟩ := hk
-    · left
-      refine ⟨res, hrn, ?_, ?_⟩
-      · have := split_no_sep '/' res sr.name (by simp [h1.1])
-        have hj := split_join '/' res
-        rw [h1.1] at hj
-        simp only [joinSep] at hj
-        rw [← hj]; exact this
-      · have hj := split_join '/' res
-        rw [h1.1] at hj
-        simpa [joinSep] using hj
-    · right
-      have hj := split_join '/' res
-      rw [h2] at hj
-      simp only [joinSep] at hj
-      refine ⟨joinSep '/' (sr.name :: more), ?_⟩
-      rw [hrn, ← hj, hns]
-      simp
-  · rw [hc.1] at ht; cases ht
-  · rw [hg.1] at ht; cases ht
-  · rw [hi.1] at ht; cases ht
-
-/-- The namespace named by the first segment is honoured whatever follows: `kubernetes://a/b/c/...`
-    is namespace `a`, name `b` - extra path segments cannot smuggle a namespace. -/
-theorem explicit_namespace_honoured (a b extra vns pc cc : Str) (ha : '/' ∉ a) (hb : '/' ∉ b) :
-    parseResourceName (kubernetesURI ++ (a ++ '/' :: b)) vns pc cc =
-      some ⟨.kubernetes, b, a, kubernetesURI ++ (a ++ '/' :: b), pc⟩ ∧
-    parseResourceName (kubernetesURI ++ (a ++ '/' :: (b ++ '/' :: extra))) vns pc cc =
-      some ⟨.kubernetes, b, a, kubernetesURI ++ (a ++ '/' :: (b ++ '/' :: extra)), pc⟩ := by
-  constructor
-  · unfold parseResourceName
-    rw [cutPrefix_append]
-    simp only
-    rw [split_append_sep _ _ _ ha, split_of_not_mem _ _ hb]
-  · unfold parseResourceName
-    rw [cutPrefix_append]
-    simp only
-    rw [split_append_sep _ _ _ ha, split_append_sep _ _ _ hb]
-
-/-- The implicit form takes the proxy's (verified) namespace. -/
-theorem implicit_namespace (n vns pc cc : Str) (hn : '/' ∉ n) :
-    parseResourceName (kubernetesURI ++ n) vns pc cc = some ⟨.kubernetes, n, vns, kubernetesURI ++ n, pc⟩ := by
-  unfold parseResourceName
-  rw [cutPrefix_append]
-  simp only
-  rw [split_of_not_mem _ _ hn]
-
-/-- Names outside the four schemes are errors; `invalid://` yields the `invalid` type, which
-    `filterAuthorizedResources` never lets through (`allowed_invalid`). -/
-theorem malformed_unreadable {rn vns pc cc : Str}
-    (h1 : ∀ r, rn ≠ kubernetesURI ++ r) (h2 : ∀ r, rn ≠ configmapURI ++ r) (h3 : ∀ r, rn ≠ gatewayURI ++ r) :
-    parseResourceName rn vns pc cc = none ∨
-      ∃ sr, parseResourceName rn vns pc cc = some sr ∧ sr.rtype = .invalid := by
-  cases h : parseResourceName rn vns pc cc with
-  | none => exact Or.inl rfl
-  | some sr =>
-    right
-    refine ⟨sr, rfl, ?_⟩
-    obtain ⟨_, _, hk | hc | hg | hi⟩ := parse_some h
-    · obtain ⟨_, _, res, hrn, _⟩ := hk; exact absurd hrn (h1 res)
-    · obtain ⟨_, _, _, _, res, _, hrn, _⟩ := hc; exact absurd hrn (h2 res)
-    · obtain ⟨_, _, _, _, res, _, hrn, _⟩ := hg; exact absurd hrn (h3 res)
-    · exact hi.1
-
-/-- `configmap://` and `kubernetes-gateway://` need both a namespace and a name. -/
-theorem namespace_required (t : RType) (rn res cl : Str) (h : '/' ∉ res) : parseNsName t rn res cl = none := by
-  unfold parseNsName
-  rw [split_of_not_mem _ _ h]
-
 /-! ### Cache key -/
 
-/-- A parsed resource whose namespace and cluster contain no `/`. -/
-def SR.WF (r : SR) : Prop := '/' ∉ r.name ∧ '/' ∉ r.ns ∧ '/' ∉ r.cluster
-
-theorem rtype_str_no_slash (t : RType) : '/' ∉ t.str ∧ '/' ∉ t.kindStr := by
-  cases t <;> decide
-
-theorem rtype_str_inj {t t' : RType} (h : t.str = t'.str) : t = t' := by
-  cases t <;> cases t' <;> first | rfl | (revert h; decide)
-
-/-- **key_injective.** The cache key string determines the resource (type, name, namespace, requested name,
-    cluster): two different resources never share a cache entry. -/
-theorem key_injective {r r' : SR} (hr : r.WF) (hr' : r'.WF) (h : r.key = r'.key) : r = r' := by
-  unfold SR.key at h
-  have e1 := append_sep_inj '/' (by simp) (by simp) h
-  have e2 := append_sep_inj '/' hr.2.2 hr'.2.2 e1.1
-  have e3 := append_sep_inj '/' hr.2.1 hr'.2.1 e2.1
-  have e4 := append_sep_inj '/' hr.1 hr'.1 e3.1
-  have e5 := append_sep_inj '/' (rtype_str_no_slash _).2 (rtype_str_no_slash _).2 e4.1
-  have e6 := append_sep_inj '/' (rtype_str_no_slash _).1 (rtype_str_no_slash _).1 e5.1
-  cases r; cases r'
-  simp only [SR.mk.injEq]
-  exact ⟨rtype_str_inj e6.2, e4.2, e3.2, e6.1, e2.2⟩
-
 /-! ### Secret lookup -/
-
-theorem extractRoot_no_key {d : SecretData} {v : Val} (h : extractRoot d = some v) : v.hasKey = false := by
-  unfold extractRoot at h
-  split at h
-  · cases h; rfl
-  · split at h
-    · cases h; rfl
-    · cases h
-
-theorem firstSome_some {cfgId : Str} {f : Cluster → Bool → Option Val} {l : List Cluster} {v : Val}
-    (h : firstSome cfgId f l = some v) : ∃ c ∈ l, f c (c.id = cfgId) = some v := by
-  induction l with
-  | nil => simp [firstSome] at h
-  | cons c cs ih =>
-    unfold firstSome at h
-    cases hf : f c (decide (c.id = cfgId)) with
-    | some x =>
-      rw [hf] at h
-      cases h
-      exact ⟨c, List.mem_cons_self, hf⟩
-    | none =>
-      rw [hf] at h
-      obtain ⟨c', hc', h'⟩ := ih h
-      exact ⟨c', List.mem_cons_of_mem _ hc', h'⟩
-
-/-- The controller `generate` reads from. -/
-def sel (r : SR) (pa ca : Agg) : Agg :=
-  match r.rtype with
-  | .gateway | .configmap => ca
-  | _ => pa
-
-theorem genVal_sel (w : World) (r : SR) (pa ca : Agg) :
-    genVal w r pa ca = genVal w r (sel r pa ca) (sel r pa ca) := by
-  unfold genVal sel
-  cases r.rtype <;> rfl
-
-/-- `generate` once the controller is chosen. -/
-def genFrom (w : World) (r : SR) (ctl : Agg) : Option Val :=
-  if r.rtype = .configmap then
-    firstSome w.configCluster (fun c isCfg => c.getConfigMapCaCert isCfg r.name r.ns) ctl.controllers
-  else if hasSuffix r.name cacertSuffix then
-    firstSome w.configCluster (fun c _ => c.getCaCert r.name r.ns) ctl.controllers
-  else
-    firstSome w.configCluster (fun c _ => c.getCertInfo r.name r.ns) ctl.controllers
-
-theorem genVal_same (w : World) (r : SR) (ctl : Agg) : genVal w r ctl ctl = genFrom w r ctl := by
-  unfold genVal genFrom
-  cases r.rtype <;> rfl
 
 /-- A value with a private key is the key pair of the secret stored under exactly `(r.name, r.ns)` in one
     of the consulted clusters, and the resource is neither a config map nor a `-cacert` name. -/
@@ -288,181 +54,7 @@ theorem genVal_key {w : World} {r : SR} {pa ca : Agg} {v : Val} (h : genVal w r 
 
 /-! ### Clusters -/
 
-theorem findCluster_some {id : Str} {cs : List Cluster} {c : Cluster} (h : findCluster id cs = some c) :
-    c ∈ cs ∧ c.id = id := by
-  induction cs with
-  | nil => simp [findCluster] at h
-  | cons x xs ih =>
-    unfold findCluster at h
-    split at h
-    · cases h; rename_i hx; exact ⟨List.mem_cons_self, hx⟩
-    · obtain ⟨h1, h2⟩ := ih h; exact ⟨List.mem_cons_of_mem _ h1, h2⟩
-
-/-- `ForCluster`: the authorising controller is the proxy's own cluster; lookups go to the proxy's cluster
-    and the config cluster only. -/
-theorem forCluster_some {w : World} {id : Str} {a : Agg} (h : w.forCluster id = some a) :
-    findCluster id w.clusters = some a.auth ∧
-    ∀ c ∈ a.controllers, c ∈ w.clusters ∧ (c.id = id ∨ c.id = w.configCluster) := by
-  unfold World.forCluster at h
-  cases hf : findCluster id w.clusters with
-  | none => rw [hf] at h; cases h
-  | some c =>
-    rw [hf] at h
-    cases h
-    refine ⟨rfl, ?_⟩
-    intro x hx
-    simp only [List.mem_append] at hx
-    cases hx with
-    | inl hx =>
-      split at hx
-      · simp at hx; subst hx; exact ⟨(findCluster_some hf).1, Or.inl (findCluster_some hf).2⟩
-      · simp at hx
-    | inr hx =>
-      cases hg : findCluster w.configCluster w.clusters with
-      | none => rw [hg] at hx; simp at hx
-      | some k =>
-        rw [hg] at hx
-        simp at hx
-        subst hx
-        exact ⟨(findCluster_some hg).1, Or.inr (findCluster_some hg).2⟩
-
 /-! ### The cache discipline -/
-
-/-- Cluster ids carry no `/` (they are path components of the cache key). -/
-def WorldOK (w : World) : Prop := '/' ∉ w.configCluster ∧ ∀ c ∈ w.clusters, '/' ∉ c.id
-
-/-- The verified namespace carries no `/` - guaranteed by `identity_binding` for every identity that
-    `authorize` installs. -/
-def ProxyOK (p : Proxy) : Prop := ∀ id, p.verified = some id → '/' ∉ id.ns
-
-/-- The content `generate` computes for a resource, as a function of the world and the resource alone. -/
-def genCanon (w : World) (r : SR) : Option Val :=
-  match w.forCluster r.cluster with
-  | some a => genVal w r a a
-  | none => none
-
-/-- Cache invariant: every entry is the canonical content of the well-formed resource its key denotes. -/
-def Consistent (w : World) (c : Cache) : Prop :=
-  ∀ k nv, c.get k = some nv → ∃ r : SR, r.WF ∧ k = r.key ∧ nv.1 = r.resourceName ∧ genCanon w r = some nv.2
-
-theorem consistent_nil (w : World) : Consistent w [] := by
-  intro k nv h; simp [Cache.get] at h
-
-theorem consistent_add {w : World} {c : Cache} {r : SR} {v : Val} (hc : Consistent w c) (hr : r.WF)
-    (hv : genCanon w r = some v) : Consistent w (c.add r.key (r.resourceName, v)) := by
-  intro k nv h
-  unfold Cache.add Cache.get at h
-  split at h
-  · cases h; rename_i hk; exact ⟨r, hr, hk.symm, rfl, hv⟩
-  · exact hc k nv h
-
-/-- A hit returns exactly what regeneration would return. -/
-theorem consistent_hit {w : World} {c : Cache} {r : SR} {nv : Str × Val} (hc : Consistent w c) (hr : r.WF)
-    (h : c.get r.key = some nv) : nv.1 = r.resourceName ∧ genCanon w r = some nv.2 := by
-  obtain ⟨r', hr', hk, h1, h2⟩ := hc _ _ h
-  have := key_injective hr hr' hk
-  subst this
-  exact ⟨h1, h2⟩
-
-/-- What one authorised resource contributes to the answer - no cache involved. -/
-def releaseOne (w : World) (rq : PushReq) (r : SR) : Option (Str × Val) :=
-  if touched rq r then (genCanon w r).map (fun v => (r.resourceName, v)) else none
-
-theorem genLoop_spec (w : World) (rq : PushReq) (pa ca : Agg) (rs : List SR) (o : GenOut)
-    (hc : Consistent w o.cache) (hrs : ∀ r ∈ rs, r.WF ∧ genVal w r pa ca = genCanon w r) :
-    (genLoop w rq pa ca rs o).res = o.res ++ rs.filterMap (releaseOne w rq) ∧
-      Consistent w (genLoop w rq pa ca rs o).cache := by
-  induction rs generalizing o with
-  | nil => simp [genLoop, hc]
-  | cons r rs ih =>
-    have hr := hrs r List.mem_cons_self
-    have hrs' : ∀ r ∈ rs, r.WF ∧ genVal w r pa ca = genCanon w r := fun x hx => hrs x (List.mem_cons_of_mem _ hx)
-    unfold genLoop
-    cases ht : touched rq r with
-    | false =>
-      simp only [Bool.not_false, if_true]
-      have := ih o hc hrs'
-      simp [releaseOne, ht, this.1, this.2]
-    | true =>
-      simp only [Bool.not_true, Bool.false_eq_true, if_false]
-      cases hg : o.cache.get r.key with
-      | some nv =>
-        simp only
-        obtain ⟨h1, h2⟩ := consistent_hit hc hr.1 hg
-        have := ih { o with res := o.res ++ [nv], cached := o.cached + 1 } hc hrs'
-        refine ⟨?_, this.2⟩
-        rw [this.1]
-        have hnv : nv = (r.resourceName, nv.2) := by rw [← h1]
-        simp [releaseOne, ht, h2, ← hnv]
-      | none =>
-        simp only
-        cases hv : genVal w r pa ca with
-        | some v =>
-          simp only
-          have hcan : genCanon w r = some v := by rw [← hr.2, hv]
-          have := ih { o with res := o.res ++ [(r.resourceName, v)], regen := o.regen + 1,
-                              cache := o.cache.add r.key (r.resourceName, v) } (consistent_add hc hr.1 hcan) hrs'
-          refine ⟨?_, this.2⟩
-          rw [this.1]
-          simp [releaseOne, ht, hcan]
-        | none =>
-          simp only
-          have hcan : genCanon w r = none := by rw [← hr.2, hv]
-          have := ih { o with regen := o.regen + 1 } hc hrs'
-          refine ⟨?_, this.2⟩
-          rw [this.1]
-          simp [releaseOne, ht, hcan]
-
-/-- The authorised resources of a request are well-formed and their content is canonical. -/
-theorem authorised_good {w : World} (hw : WorldOK w) {p : Proxy} {id : Identity} (hid : '/' ∉ id.ns) {pa ca : Agg}
-    (hpa : w.forCluster p.cluster = some pa) (hca : w.forCluster w.configCluster = some ca) (authz : Bool)
-    (names : List Str) :
-    ∀ r ∈ filterAuthorized p id authz (parseResources names id.ns p.cluster w.configCluster),
-      r.WF ∧ genVal w r pa ca = genCanon w r := by
-  intro r hr
-  unfold filterAuthorized at hr
-  rw [List.mem_filter] at hr
-  obtain ⟨hmem, hal⟩ := hr
-  unfold parseResources at hmem
-  rw [List.mem_filterMap] at hmem
-  obtain ⟨n, _, hp⟩ := hmem
-  have hps := parse_some hp
-  have hpc : '/' ∉ p.cluster := by
-    have := findCluster_some (forCluster_some hpa).1
-    rw [← this.2]; exact hw.2 _ this.1
-  obtain ⟨_, hname, hk | hc | hg | hi⟩ := hps
-  · refine ⟨⟨hname, parse_ns_no_slash hp hid, by rw [hk.2.1]; exact hpc⟩, ?_⟩
-    unfold genCanon
-    rw [hk.2.1, hpa, genVal_sel]
-    simp [sel, hk.1]
-  · refine ⟨⟨hname, parse_ns_no_slash hp hid, by rw [hc.2.1]; exact hw.1⟩, ?_⟩
-    unfold genCanon
-    rw [hc.2.1, hca, genVal_sel]
-    simp [sel, hc.1]
-  · refine ⟨⟨hname, parse_ns_no_slash hp hid, by rw [hg.2.1]; exact hw.1⟩, ?_⟩
-    unfold genCanon
-    rw [hg.2.1, hca, genVal_sel]
-    simp [sel, hg.1]
-  · simp [allowed, hi.1] at hal
-
-/-- The cache-free specification of `Generate`: parse, filter by entitlement, read the store. -/
-def spec (w : World) (p : Proxy) (names : List Str) (req : Option PushReq) : Option (List (Str × Val)) :=
-  match p.verified with
-  | none => none
-  | some id =>
-    match req with
-    | none => none
-    | some rq =>
-      if !sdsNeedsPush rq then none
-      else
-        match w.forCluster p.cluster with
-        | none => none
-        | some pa =>
-          match w.forCluster w.configCluster with
-          | none => none
-          | some _ =>
-            some ((filterAuthorized p id (pa.auth.authz id.sa id.ns)
-              (parseResources names id.ns p.cluster w.configCluster)).filterMap (releaseOne w rq))
 
 /-- One `Generate` call on a consistent cache answers exactly the specification and leaves the cache
     consistent. -/
@@ -498,38 +90,6 @@ theorem generate_spec (w : World) (hw : WorldOK w) (p : Proxy) (hp : ProxyOK p) 
               exact this.2
 
 /-! ### Histories on a shared cache -/
-
-/-- What can happen to the shared SDS cache: a `Generate` call by any proxy for any names with any push
-    request, or a full clear. -/
-inductive Op
-  | gen (p : Proxy) (names : List Str) (req : Option PushReq)
-  | clear
-
-def stepOp (w : World) (c : Cache) : Op → Cache × Option (List (Str × Val))
-  | .gen p names req =>
-    match generate w c p names req with
-    | some o => (o.cache, some o.res)
-    | none => (c, none)
-  | .clear => ([], none)
-
-/-- The answers to a sequence of operations, threaded through the one shared cache. -/
-def runOps (w : World) : Cache → List Op → List (Option (List (Str × Val)))
-  | _, [] => []
-  | c, op :: ops => (stepOp w c op).2 :: runOps w (stepOp w c op).1 ops
-
-/-- The cache after a history. -/
-def finalCache (w : World) : Cache → List Op → Cache
-  | c, [] => c
-  | c, op :: ops => finalCache w (stepOp w c op).1 ops
-
-/-- The answer each operation gets in isolation (no cache, no history). -/
-def specOp (w : World) : Op → Option (List (Str × Val))
-  | .gen p names req => spec w p names req
-  | .clear => none
-
-def OpOK : Op → Prop
-  | .gen p _ _ => ProxyOK p
-  | .clear => True
 
 theorem stepOp_spec (w : World) (hw : WorldOK w) (c : Cache) (hc : Consistent w c) (op : Op) (hop : OpOK op) :
     (stepOp w c op).2 = specOp w op ∧ Consistent w (stepOp w c op).1 := by
@@ -577,29 +137,6 @@ theorem sds_history_independent (w : World) (hw : WorldOK w) (h1 h2 : List Op)
     (stepOp_spec w hw _ (finalCache_consistent w hw h2 hh2 [] (consistent_nil w)) op hop).1]
 
 /-! ### Release soundness -/
-
-/-- Entitlement of proxy `p` (verified as `id`, authorising cluster `pc`) to a parsed resource: the case table
-    of `filterAuthorizedResources`. -/
-def Entitled (p : Proxy) (id : Identity) (pc : Cluster) (sr : SR) : Prop :=
-  match sr.rtype with
-  | .kubernetes => sr.ns = id.ns ∧ (hasSuffix sr.name cacertSuffix = true ∨ pc.authz id.sa id.ns = true)
-  | .gateway => ∃ l, p.refs = some l ∧ sr.resourceName ∈ l
-  | .configmap => True
-  | .invalid => False
-
-theorem allowed_entitled {p : Proxy} {id : Identity} {pc : Cluster} {sr : SR}
-    (h : allowed p id (pc.authz id.sa id.ns) sr = true) : Entitled p id pc sr := by
-  unfold allowed at h
-  unfold Entitled
-  split at h
-  · rename_i ht; simp only [ht]
-    split at h
-    · rename_i l hl; exact ⟨l, hl, by simpa using h⟩
-    · cases h
-  · rename_i ht; simp only [ht]
-  · rename_i ht; simp only [ht]
-    simpa using h
-  · cases h
 
 theorem allowed_invalid (p : Proxy) (id : Identity) (authz : Bool) (sr : SR) (h : sr.rtype = .invalid) :
     allowed p id authz sr = false := by
@@ -736,48 +273,6 @@ theorem never_across_namespaces (w : World) (hw : WorldOK w) (p : Proxy) (hp : P
 
 /-! ### Authorisation precedes every cache lookup (no assumption on the cache) -/
 
-/-- Whatever the cache contains - consistent or poisoned - each returned element was either read from the
-    cache under the key of an *authorised* resource of this request, or freshly generated for one. -/
-theorem genLoop_only_authorised (w : World) (rq : PushReq) (pa ca : Agg) (rs : List SR) (o : GenOut)
-    (nv : Str × Val) (h : nv ∈ (genLoop w rq pa ca rs o).res) :
-    nv ∈ o.res ∨ (∃ r ∈ rs, o.cache.get r.key = some nv) ∨
-      (∃ r ∈ rs, nv.1 = r.resourceName ∧ genVal w r pa ca = some nv.2) := by
-  induction rs generalizing o with
-  | nil => exact Or.inl (by simpa [genLoop] using h)
-  | cons r rs ih =>
-    unfold genLoop at h
-    split at h
-    · rcases ih o h with h1 | ⟨r', hr', h2⟩ | ⟨r', hr', h3⟩
-      · exact Or.inl h1
-      · exact Or.inr (Or.inl ⟨r', List.mem_cons_of_mem _ hr', h2⟩)
-      · exact Or.inr (Or.inr ⟨r', List.mem_cons_of_mem _ hr', h3⟩)
-    · split at h
-      · rename_i v hv
-        rcases ih _ h with h1 | ⟨r', hr', h2⟩ | ⟨r', hr', h3⟩
-        · simp only [List.mem_append, List.mem_singleton] at h1
-          cases h1 with
-          | inl h1 => exact Or.inl h1
-          | inr h1 => exact Or.inr (Or.inl ⟨r, List.mem_cons_self, h1 ▸ hv⟩)
-        · exact Or.inr (Or.inl ⟨r', List.mem_cons_of_mem _ hr', h2⟩)
-        · exact Or.inr (Or.inr ⟨r', List.mem_cons_of_mem _ hr', h3⟩)
-      · split at h
-        · rename_i v hv
-          rcases ih _ h with h1 | ⟨r', hr', h2⟩ | ⟨r', hr', h3⟩
-          · simp only [List.mem_append, List.mem_singleton] at h1
-            cases h1 with
-            | inl h1 => exact Or.inl h1
-            | inr h1 => exact Or.inr (Or.inr ⟨r, List.mem_cons_self, by rw [h1], by rw [h1]; exact hv⟩)
-          · simp only [Cache.add, Cache.get] at h2
-            split at h2
-            · cases h2
-              exact Or.inr (Or.inr ⟨r, List.mem_cons_self, rfl, hv⟩)
-            · exact Or.inr (Or.inl ⟨r', List.mem_cons_of_mem _ hr', h2⟩)
-          · exact Or.inr (Or.inr ⟨r', List.mem_cons_of_mem _ hr', h3⟩)
-        · rcases ih _ h with h1 | ⟨r', hr', h2⟩ | ⟨r', hr', h3⟩
-          · exact Or.inl h1
-          · exact Or.inr (Or.inl ⟨r', List.mem_cons_of_mem _ hr', h2⟩)
-          · exact Or.inr (Or.inr ⟨r', List.mem_cons_of_mem _ hr', h3⟩)
-
 /-- **cache_lookup_only_authorised.** For an arbitrary cache state: every returned element is tied to a requested
     name that parses to a resource the requester is entitled to; only keys of such resources are ever looked up. -/
 theorem cache_lookup_only_authorised (w : World) (c : Cache) (p : Proxy) (names : List Str) (req : Option PushReq)
@@ -785,7 +280,9 @@ theorem cache_lookup_only_authorised (w : World) (c : Cache) (p : Proxy) (names 
     ∃ id sr pc n, p.verified = some id ∧ n ∈ names ∧
       parseResourceName n id.ns p.cluster w.configCluster = some sr ∧
       findCluster p.cluster w.clusters = some pc ∧ Entitled p id pc sr ∧
-      (c.get sr.key = some nv ∨ nv.1 = n) := by
+      (c.get sr.key = some nv ∨
+        (nv.1 = n ∧ ∃ pa ca, w.forCluster p.cluster = some pa ∧ w.forCluster w.configCluster = some ca ∧
+          genVal w sr pa ca = some nv.2)) := by
   unfold generate at h
   cases hv : p.verified with
   | none => rw [hv] at h; cases h
@@ -826,7 +323,7 @@ theorem cache_lookup_only_authorised (w : World) (c : Cache) (p : Proxy) (names 
               exact ⟨id, r, pa.auth, n, rfl, hn, hp, (forCluster_some hpa).1, he, Or.inl h2⟩
             · obtain ⟨n, hn, hp, he⟩ := key r hr
               exact ⟨id, r, pa.auth, n, rfl, hn, hp, (forCluster_some hpa).1, he,
-                Or.inr (by rw [h3.1, (parse_some hp).1])⟩
+                Or.inr ⟨by rw [h3.1, (parse_some hp).1], pa, ca, rfl, rfl, h3.2⟩⟩
 
 /-! ### End to end: connection identity and release -/
 
@@ -878,9 +375,9 @@ theorem plaintext_stream_gets_no_secret (results : List (Option (List Str))) (id
     (hauth : authenticate true .plain false results = some ids)
     (flag : Bool) (nodeId : Str) (ipOK : Bool) (metaNs metaSA cfg : Str) (res : AuthRes)
     (hconn : connect flag nodeId ipOK metaNs metaSA ids = some (cfg, res)) :
-    res = .ok none ∧
+    ∃ v, res = .ok v ∧
       ∀ (w : World) (c : Cache) (cluster : Str) (refs : Option (List Str)) (names : List Str) (req : Option PushReq),
-        generate w c ⟨none, cluster, refs⟩ names req = none := by
+        generate w c ⟨v, cluster, refs⟩ names req = none := by
   rw [plaintext_unauthenticated] at hauth
   cases hauth
   unfold connect at hconn
@@ -889,7 +386,7 @@ theorem plaintext_stream_gets_no_secret (results : List (Option (List Str))) (id
   | some dom =>
     rw [hd] at hconn
     simp only [Option.some.injEq, Prod.mk.injEq] at hconn
-    refine ⟨?_, fun w c cluster refs names req => unverified_gets_nothing w c _ names req rfl⟩
+    refine ⟨none, ?_, fun w c cluster refs names req => unverified_gets_nothing w c _ names req rfl⟩
     rw [← hconn.2]
     rfl
 
